@@ -662,7 +662,18 @@ func (tx *Transaction) GetField(rv ruleVariableParams) []types.MatchData {
 		isException := false
 		lkey := strings.ToLower(c.Key())
 		for _, ex := range rv.Exceptions {
-			if (ex.KeyRx != nil && ex.KeyRx.MatchString(lkey)) || strings.ToLower(ex.KeyStr) == lkey || (ex.KeyStr == "" && ex.KeyRx == nil) {
+			// a regex exclusion is decided by its regex alone (its KeyStr, if any, is the pattern text, not a key),
+			// an exclusion without key covers the whole variable, any other one names a single key
+			var excluded bool
+			switch {
+			case ex.KeyRx != nil:
+				excluded = ex.KeyRx.MatchString(lkey)
+			case ex.KeyStr == "":
+				excluded = true
+			default:
+				excluded = strings.ToLower(ex.KeyStr) == lkey
+			}
+			if excluded {
 				isException = true
 				break
 			}
